@@ -138,7 +138,8 @@ Section Tokens.
   Proof.
     induction s as [|c s IH]; [reflexivity|].
     unfold lit_tokens, subst_all in *. cbn [map flat_map]. rewrite IH.
-    unfold lit_tok at 1. destruct (Ascii.eqb c cClose); reflexivity.
+    destruct (lit_tok c) eqn:E; try reflexivity.
+    unfold lit_tok in E. destruct (Ascii.eqb c cClose); discriminate.
   Qed.
 
   (* ---- substitution ----------------------------------------------------------------------------------- *)
@@ -150,8 +151,9 @@ Section Tokens.
     induction ts as [|t ts IH]; [reflexivity|].
     unfold subst in *. cbn [flat_map]. rewrite subst_all_app, IH.
     destruct t; try reflexivity. cbn [subst1].
-    destruct (str_eqb name n) eqn:E; [|reflexivity].
-    apply str_eqb_eq in E. subst. rewrite subst_all_lit. reflexivity.
+    destruct (str_eqb name n) eqn:E.
+    - apply str_eqb_eq in E. subst. rewrite subst_all_lit. reflexivity.
+    - unfold subst_all. cbn [flat_map subst_all1]. now rewrite app_nil_r.
   Qed.
 
   Lemma subst_all_no_ref ts : first_ref ts = None -> subst_all ts = ts.
@@ -209,7 +211,7 @@ Section Tokens.
     destruct t; cbn [first_ref] in H; try (apply Nat.add_lt_mono_l; now apply IH).
     inversion H; subst. cbn [subst1]. rewrite str_eqb_refl, nrefs_lit.
     pose proof (nrefs_subst_le n ts) as Hle. unfold subst in Hle.
-    unfold nrefs at 3. cbn. lia.
+    change (nrefs [TRef n]) with 1. lia.
   Qed.
 
   (* ---- un-escaping of reference-free token strings ---------------------------------------------------- *)
@@ -228,16 +230,601 @@ Section Tokens.
     - rewrite unescape_cons_nd by reflexivity. f_equal. eauto.
     - destruct Hwf as [_ Hr]. rewrite unescape_dd. f_equal. eauto.
     - destruct Hwf as [_ Hr]. destruct ts as [|t2 ts2]; [reflexivity|].
+      specialize (IH true Hr Hnr).
       destruct t2; cbn [wf_from] in Hr.
-      + destruct Hr as [Hc _]. rewrite flatten_cons. cbn [tok_text app].
-        rewrite unescape_d_nd by now apply char_ok_nd.
-        f_equal. rewrite <- (IH true); [reflexivity| |exact Hnr].
-        cbn [wf_from]. exact Hr0 || idtac. all: try (cbn [wf_from]; tauto).
-      + rewrite flatten_cons. cbn [tok_text app]. rewrite unescape_d_nd by reflexivity.
-        f_equal. now rewrite <- (IH true).
+      + destruct Hr as [Hc _]. rewrite flatten_cons in *. cbn [tok_text app] in *.
+        rewrite unescape_d_nd by now apply char_ok_nd. f_equal. exact IH.
+      + rewrite flatten_cons in *. cbn [tok_text app] in *.
+        rewrite unescape_d_nd by reflexivity. f_equal. exact IH.
       + destruct Hr as [Hr _]. discriminate.
       + destruct Hr as [Hr _]. discriminate.
       + discriminate.
     - discriminate.
   Qed.
+
+  (* ---- findURI on token strings ------------------------------------------------------------------------ *)
+  Definition Jinv (x : str) : Prop :=
+    match split_last_open x with
+    | None => True
+    | Some (pre, _) => Nat.odd (trailing_dollars pre) = true
+    end.
+  (* x = the text of the current '}'-free segment so far; pd = it ends with a lone '$' token *)
+  Definition Inv (x : str) (pd : bool) : Prop :=
+    Nat.even (trailing_dollars x) = negb pd /\ Jinv x.
+
+  Fixpoint flag_after (pd : bool) (ts : list tok) : bool :=
+    match ts with
+    | [] => pd
+    | TDollar :: r => flag_after true r
+    | _ :: r => flag_after false r
+    end.
+
+  Lemma wf_app a : forall pd b, wf_from pd (a ++ b) -> wf_from pd a /\ wf_from (flag_after pd a) b.
+  Proof.
+    induction a as [|t a IH]; intros pd b H; [split; [exact I|exact H]|].
+    destruct t; cbn [app wf_from flag_after] in *.
+    - destruct H as [H1 [H2 H3]]. destruct (IH _ _ H3). tauto.
+    - destruct (IH _ _ H). tauto.
+    - destruct H as [H1 H3]. destruct (IH _ _ H3). tauto.
+    - destruct H as [H1 H3]. destruct (IH _ _ H3). tauto.
+    - destruct H as [H1 [H2 H3]]. destruct (IH _ _ H3). tauto.
+  Qed.
+
+  Lemma Jinv_snoc_other x c :
+    Jinv x -> Ascii.eqb c cOpen && last_dollar x = false -> Jinv (x ++ [c]).
+  Proof.
+    unfold Jinv. intros H Hc. rewrite (slo_snoc x c Hc).
+    destruct (split_last_open x) as [[p b]|]; exact H.
+  Qed.
+
+  Lemma Jinv_snoc_open x :
+    last_dollar x = true -> Nat.even (trailing_dollars x) = true -> Jinv (x ++ [cOpen]).
+  Proof.
+    intros Hl He. destruct (last_dollar_true x Hl) as [x' ->].
+    unfold Jinv. rewrite <- app_assoc. cbn [app].
+    rewrite (slo_last x' []) by reflexivity.
+    rewrite trailing_dollars_snoc in He. change (is_dollar cDollar) with true in He. cbv iota in He.
+    rewrite Nat.even_succ in He. exact He.
+  Qed.
+
+  Lemma Inv_char x pd c :
+    char_ok c = true -> (pd = true -> c <> cOpen) -> Inv x pd -> Inv (x ++ [c]) false.
+  Proof.
+    intros Hc Hpd [He HJ]. split.
+    - rewrite trailing_dollars_snoc, (char_ok_nd c Hc). reflexivity.
+    - destruct (Ascii.eqb c cOpen) eqn:Eo.
+      + apply Ascii.eqb_eq in Eo. subst c.
+        destruct pd; [exfalso; now apply Hpd|]. cbn [negb] in He.
+        destruct (last_dollar x) eqn:El.
+        * now apply Jinv_snoc_open.
+        * apply Jinv_snoc_other; [exact HJ|]. rewrite El. apply andb_false_r.
+      + apply Jinv_snoc_other; [exact HJ|]. rewrite Eo. reflexivity.
+  Qed.
+
+  Lemma Inv_dollar x : Inv x false -> Inv (x ++ [cDollar]) true.
+  Proof.
+    intros [He HJ]. split.
+    - rewrite trailing_dollars_snoc. change (is_dollar cDollar) with true. cbv iota.
+      rewrite Nat.even_succ, <- Nat.negb_even, He. reflexivity.
+    - apply Jinv_snoc_other; [exact HJ|reflexivity].
+  Qed.
+
+  Lemma Inv_esc x : Inv x false -> Inv (x ++ [cDollar; cDollar]) false.
+  Proof.
+    intros [He HJ]. change [cDollar; cDollar] with ([cDollar] ++ [cDollar]). rewrite app_assoc. split.
+    - rewrite !trailing_dollars_snoc. change (is_dollar cDollar) with true. cbv iota.
+      rewrite Nat.even_succ_succ. exact He.
+    - apply Jinv_snoc_other; [|reflexivity]. apply Jinv_snoc_other; [exact HJ|reflexivity].
+  Qed.
+
+  Lemma Inv_tokens ps : forall x pd,
+    forallb simple ps = true -> wf_from pd ps -> Inv x pd -> Inv (x ++ flatten ps) (flag_after pd ps).
+  Proof.
+    induction ps as [|t ps IH]; intros x pd Hs Hwf Hi.
+    - cbn. now rewrite app_nil_r.
+    - cbn [forallb] in Hs. apply andb_true_iff in Hs as [Ht Hs].
+      rewrite flatten_cons, app_assoc.
+      destruct t; try discriminate; cbn [wf_from flag_after tok_text] in *.
+      + destruct Hwf as [H1 [H2 H3]]. apply IH; auto. now apply (Inv_char x pd).
+      + destruct Hwf as [-> H3]. apply IH; auto. now apply Inv_esc.
+      + destruct Hwf as [-> H3]. apply IH; auto. now apply Inv_dollar.
+  Qed.
+
+  Lemma Inv_nil : Inv [] false.
+  Proof. split; [reflexivity|exact I]. Qed.
+
+  Fixpoint first_end (ts : list tok) : option (list tok * tok * list tok) :=
+    match ts with
+    | [] => None
+    | t :: r =>
+        if simple t then
+          match first_end r with
+          | Some (ps, e, rest) => Some (t :: ps, e, rest)
+          | None => None
+          end
+        else Some ([], t, r)
+    end.
+
+  Lemma first_end_some ts : forall ps e rest,
+    first_end ts = Some (ps, e, rest) -> ts = ps ++ e :: rest /\ forallb simple ps = true /\ simple e = false.
+  Proof.
+    induction ts as [|t ts IH]; intros ps e rest H; [discriminate|].
+    cbn [first_end] in H. destruct (simple t) eqn:Et.
+    - destruct (first_end ts) as [[[ps' e'] rest']|]; [|discriminate]. inversion H; subst.
+      destruct (IH _ _ _ eq_refl) as [-> [H1 H2]]. cbn [forallb]. rewrite Et, H1. auto.
+    - inversion H; subst. auto.
+  Qed.
+
+  Lemma first_end_none ts : first_end ts = None -> forallb simple ts = true.
+  Proof.
+    induction ts as [|t ts IH]; [reflexivity|]. cbn [first_end forallb].
+    destruct (simple t); [|discriminate].
+    destruct (first_end ts) as [[[ps e] rest]|]; [discriminate|]. intros _. now apply IH.
+  Qed.
+
+  Lemma simple_no_close ps : forall pd,
+    forallb simple ps = true -> wf_from pd ps -> has_char cClose (flatten ps) = false.
+  Proof.
+    induction ps as [|t ps IH]; intros pd Hs Hwf; [reflexivity|].
+    cbn [forallb] in Hs. apply andb_true_iff in Hs as [Ht Hs].
+    rewrite flatten_cons, has_char_app.
+    destruct t; try discriminate; cbn [wf_from tok_text] in *.
+    - destruct Hwf as [H1 [_ H3]]. rewrite (IH _ Hs H3). unfold has_char. cbn [existsb].
+      rewrite (Ascii.eqb_sym cClose c), (char_ok_nc c H1). reflexivity.
+    - destruct Hwf as [_ H3]. now rewrite (IH _ Hs H3).
+    - destruct Hwf as [_ H3]. now rewrite (IH _ Hs H3).
+  Qed.
+
+  Lemma simple_first_ref ps r : forallb simple ps = true -> first_ref (ps ++ r) = first_ref r.
+  Proof.
+    induction ps as [|t ps IH]; [reflexivity|]. cbn [forallb]. intros H.
+    apply andb_true_iff in H as [Ht Hs]. destruct t; try discriminate; cbn [app first_ref]; auto.
+  Qed.
+
+  Lemma split_close_absent s : has_char cClose s = false -> split_close s = None.
+  Proof.
+    induction s as [|c s IH]; [reflexivity|]. unfold has_char. cbn [existsb split_close]. intros H.
+    apply orb_false_iff in H as [H1 H2]. rewrite (Ascii.eqb_sym c cClose), H1.
+    unfold has_char in IH. now rewrite (IH H2).
+  Qed.
+
+  Lemma first_ref_has_close ts n : first_ref ts = Some n -> has_char cClose (flatten ts) = true.
+  Proof.
+    induction ts as [|t ts IH]; [discriminate|]. rewrite flatten_cons, has_char_app.
+    destruct t; cbn [first_ref]; intros H; try (rewrite (IH H); apply orb_true_r).
+    cbn [tok_text]. now rewrite ref_text_has_close.
+  Qed.
+
+  Lemma find_uri_tokens fuel : forall ts,
+    length (flatten ts) < fuel -> wf ts ->
+    find_uri_f def fuel (flatten ts) = option_map ref_text (first_ref ts).
+  Proof.
+    induction fuel as [|f IH]; intros ts Hlen Hwf; [lia|].
+    rewrite find_uri_f_unfold.
+    destruct (first_end ts) as [[[ps e] rest]|] eqn:Efe.
+    - destruct (first_end_some ts _ _ _ Efe) as [-> [Hs He]].
+      destruct (wf_app ps false (e :: rest) Hwf) as [Hwps Hwe].
+      pose proof (Inv_tokens ps [] false Hs Hwps Inv_nil) as [Hev HJ]. cbn [app] in Hev, HJ.
+      pose proof (simple_no_close ps false Hs Hwps) as Hnc.
+      rewrite (simple_first_ref ps _ Hs).
+      rewrite flatten_app, flatten_cons in *.
+      destruct e; try discriminate.
+      + (* the segment ends with a literal '}' *)
+        cbn [tok_text app]. rewrite (split_close_app _ _ Hnc). cbv zeta.
+        cbn [wf_from] in Hwe.
+        assert (Hnext : (if has_char cClose (flatten rest) then find_uri_f def f (flatten rest) else None)
+                        = option_map ref_text (first_ref rest)).
+        { destruct (has_char cClose (flatten rest)) eqn:Hc.
+          - apply IH; [|exact Hwe]. rewrite !app_length in Hlen. cbn in Hlen. lia.
+          - destruct (first_ref rest) eqn:Efr; [|reflexivity].
+            apply first_ref_has_close in Efr. congruence. }
+        rewrite Hnext. cbn [first_ref].
+        rewrite (slo_snoc (flatten ps) cClose) by reflexivity.
+        unfold Jinv in HJ. destruct (split_last_open (flatten ps)) as [[pre b]|]; cbn [snoc_body]; [|reflexivity].
+        rewrite HJ. destruct (str_empty def && _); reflexivity.
+      + (* the segment ends with a reference *)
+        cbn [wf_from] in Hwe. destruct Hwe as [Hpd [[Hn [Hok _]] _]].
+        rewrite Hpd in Hev. cbn [negb] in Hev. cbn [tok_text first_ref option_map].
+        now apply find_uri_ref_here.
+    - pose proof (first_end_none ts Efe) as Hs.
+      rewrite (split_close_absent _ (simple_no_close ts false Hs Hwf)).
+      replace ts with (ts ++ []) by apply app_nil_r. now rewrite (simple_first_ref ts [] Hs).
+  Qed.
+
+  Lemma find_uri_wf ts : wf ts -> find_uri def (flatten ts) = option_map ref_text (first_ref ts).
+  Proof. intros H. unfold find_uri. apply find_uri_tokens; [lia|exact H]. Qed.
+
+  (* ---- replaceUnescaped on token strings ------------------------------------------------------------------- *)
+  Lemma repl_aux_skip uri repl k nd c s :
+    repl_aux uri repl (S k) nd (c :: s) = repl_aux uri repl k (if is_dollar c then S nd else 0) s.
+  Proof. reflexivity. Qed.
+
+  Lemma repl_aux_zero uri repl nd c s :
+    repl_aux uri repl 0 nd (c :: s) =
+    if prefix uri (c :: s)
+    then (if Nat.odd nd then uri else repl) ++ repl_aux uri repl (length uri - 1) (if is_dollar c then S nd else 0) s
+    else c :: repl_aux uri repl 0 (if is_dollar c then S nd else 0) s.
+  Proof. reflexivity. Qed.
+
+  (* the run of '$' after reading w, having had nd before *)
+  Definition run (nd : nat) (w : str) : nat := fold_left (fun a c => if is_dollar c then S a else 0) w nd.
+
+  Lemma run_snoc nd w c : run nd (w ++ [c]) = if is_dollar c then S (run nd w) else 0.
+  Proof. unfold run. rewrite fold_left_app. reflexivity. Qed.
+
+  Lemma repl_skip_all uri repl w : forall nd t,
+    repl_aux uri repl (length w) nd (w ++ t) = repl_aux uri repl 0 (run nd w) t.
+  Proof.
+    induction w as [|c w IH]; intros nd t; [reflexivity|].
+    cbn [length app]. rewrite repl_aux_skip. apply IH.
+  Qed.
+
+  Lemma prefix_head_neq p c d s : Ascii.eqb c d = false -> prefix (c :: p) (d :: s) = false.
+  Proof. intros H. cbn [prefix]. now rewrite H. Qed.
+
+  Lemma prefix_app_self p s : prefix p (p ++ s) = true.
+  Proof. induction p as [|c p IH]; [reflexivity|]. cbn [app prefix]. now rewrite Ascii.eqb_refl. Qed.
+
+  Lemma prefix_spec p : forall s, prefix p s = true -> exists t, s = p ++ t.
+  Proof.
+    induction p as [|c p IH]; intros s H; [exists s; reflexivity|].
+    destruct s as [|d s]; [discriminate|]. cbn [prefix] in H. apply andb_true_iff in H as [H1 H2].
+    apply Ascii.eqb_eq in H1. subst. destruct (IH _ H2) as [t ->]. exists t. reflexivity.
+  Qed.
+
+  (* copying a '$'-free stretch *)
+  Lemma repl_copy uri' repl w : forall nd t,
+    has_char cDollar w = false ->
+    repl_aux (cDollar :: uri') repl 0 nd (w ++ t) = w ++ repl_aux (cDollar :: uri') repl 0 (run nd w) t.
+  Proof.
+    induction w as [|c w IH]; intros nd t Hw; [reflexivity|].
+    unfold has_char in Hw. cbn [existsb] in Hw. apply orb_false_iff in Hw as [H1 H2].
+    cbn [app]. rewrite repl_aux_zero. rewrite prefix_head_neq by exact H1.
+    f_equal. unfold has_char in IH. rewrite (IH _ _ H2). reflexivity.
+  Qed.
+
+  Section Repl.
+    Variable n : str.
+    Hypothesis Hn : name_ok n = true.
+    Let w := cOpen :: n ++ [cClose].
+    Let uri := ref_text n.
+
+    Lemma uri_eq : uri = cDollar :: w.
+    Proof. reflexivity. Qed.
+
+    Lemma w_dollar_free : has_char cDollar w = false.
+    Proof.
+      unfold name_ok in Hn. apply andb_true_iff in Hn as [H1 _]. apply negb_true_iff in H1.
+      unfold w. change (cOpen :: n ++ [cClose]) with ([cOpen] ++ n ++ [cClose]).
+      rewrite !has_char_app, H1. reflexivity.
+    Qed.
+
+    Lemma run_w nd : run nd w = 0.
+    Proof. unfold w. change (cOpen :: n ++ [cClose]) with ((cOpen :: n) ++ [cClose]). rewrite run_snoc. reflexivity. Qed.
+
+    Lemma len_uri : length uri - 1 = length w.
+    Proof. rewrite uri_eq. cbn [length]. apply Nat.sub_0_r. Qed.
+
+    (* an escaped occurrence is copied *)
+    Lemma repl_escaped_copy repl nd c s :
+      prefix uri (c :: s) = true -> Nat.odd nd = true ->
+      repl_aux uri repl 0 nd (c :: s) = c :: repl_aux uri repl 0 (if is_dollar c then S nd else 0) s.
+    Proof.
+      intros Hp Ho. rewrite repl_aux_zero, Hp, Ho, len_uri.
+      destruct (prefix_spec _ _ Hp) as [t Ht]. rewrite uri_eq in Ht.
+      change ((cDollar :: w) ++ t) with (cDollar :: (w ++ t)) in Ht.
+      injection Ht as Hc Hs. subst c s. change (is_dollar cDollar) with true. cbv iota.
+      change (cOpen :: (n ++ [cClose]) ++ t) with (w ++ t).
+      rewrite repl_skip_all. rewrite uri_eq. rewrite (repl_copy w repl w _ t w_dollar_free).
+      reflexivity.
+    Qed.
+
+    Lemma prefix_after_dollar d s : Ascii.eqb cOpen d = false -> prefix uri (cDollar :: d :: s) = false.
+    Proof. intros H. rewrite uri_eq. unfold w. cbn [prefix]. rewrite H. now rewrite andb_false_r. Qed.
+
+    Lemma prefix_lone_dollar : prefix uri [cDollar] = false.
+    Proof. reflexivity. Qed.
+
+    Lemma prefix_name : forall a b r,
+      has_char cClose a = false -> has_char cClose b = false ->
+      prefix (a ++ [cClose]) (b ++ cClose :: r) = str_eqb a b.
+    Proof.
+      induction a as [|x a IH]; intros b r Ha Hb.
+      - destruct b as [|y b]; [reflexivity|].
+        unfold has_char in Hb. cbn [existsb] in Hb. apply orb_false_iff in Hb as [H1 _].
+        cbn [app prefix]. rewrite H1. reflexivity.
+      - unfold has_char in Ha. cbn [existsb] in Ha. apply orb_false_iff in Ha as [H1 H2].
+        destruct b as [|y b].
+        + cbn [app prefix]. rewrite (Ascii.eqb_sym x cClose), H1. reflexivity.
+        + unfold has_char in Hb. cbn [existsb] in Hb. apply orb_false_iff in Hb as [H3 H4].
+          cbn [app prefix]. unfold str_eqb. cbn [list_eqb]. f_equal. now apply IH.
+    Qed.
+
+    Lemma prefix_other_ref m r :
+      name_ok m = true -> prefix uri (ref_text m ++ r) = str_eqb n m.
+    Proof.
+      intros Hm. unfold name_ok in Hn, Hm.
+      apply andb_true_iff in Hn as [_ H1]. apply andb_true_iff in Hm as [_ H2].
+      apply negb_true_iff in H1, H2.
+      unfold uri, ref_text. cbn [app prefix]. rewrite !Ascii.eqb_refl. cbn [andb].
+      rewrite <- app_assoc. cbn [app]. now apply prefix_name.
+    Qed.
+
+    Lemma prefix_after_lone r : wf_from true r -> prefix uri (cDollar :: flatten r) = false.
+    Proof.
+      destruct r as [|t r]; [reflexivity|]. rewrite flatten_cons.
+      destruct t; cbn [wf_from tok_text app].
+      - intros [_ [H _]]. apply prefix_after_dollar. apply Ascii.eqb_neq. intros E. apply H; auto.
+      - intros _. now apply prefix_after_dollar.
+      - intros [H _]. discriminate.
+      - intros [H _]. discriminate.
+      - intros [H _]. discriminate.
+    Qed.
+
+    Lemma repl_tokens ts : forall nd pd,
+      wf_from pd ts -> Nat.even nd = negb pd ->
+      repl_aux uri (val n) 0 nd (flatten ts) = flatten (subst n ts).
+    Proof.
+      induction ts as [|t ts IH]; intros nd pd Hwf He; [reflexivity|].
+      rewrite flatten_cons. unfold subst. cbn [flat_map]. fold (subst n ts).
+      rewrite flatten_app.
+      destruct t; cbn [wf_from tok_text subst1 app] in *.
+      - destruct Hwf as [Hc [_ Hr]]. rewrite repl_aux_zero.
+        rewrite uri_eq, prefix_head_neq.
+        2:{ rewrite Ascii.eqb_sym. exact (char_ok_nd c Hc). }
+        rewrite (char_ok_nd c Hc). cbn [flatten map concat tok_text app]. f_equal.
+        rewrite <- uri_eq. now apply (IH 0 false).
+      - rewrite repl_aux_zero. rewrite uri_eq, prefix_head_neq by reflexivity.
+        change (is_dollar cClose) with false. cbv iota. cbn [flatten map concat tok_text app]. f_equal.
+        rewrite <- uri_eq. now apply (IH 0 false).
+      - destruct Hwf as [-> Hr]. cbn [negb] in He.
+        rewrite repl_aux_zero. rewrite prefix_after_dollar by reflexivity.
+        change (is_dollar cDollar) with true. cbv iota.
+        cbn [flatten map concat tok_text app]. f_equal.
+        assert (Hcopy : repl_aux uri (val n) 0 (S nd) (cDollar :: flatten ts)
+                        = cDollar :: repl_aux uri (val n) 0 (S (S nd)) (flatten ts)).
+        { destruct (prefix uri (cDollar :: flatten ts)) eqn:Ep.
+          - apply repl_escaped_copy; [exact Ep|]. rewrite Nat.odd_succ. exact He.
+          - rewrite repl_aux_zero, Ep. reflexivity. }
+        rewrite Hcopy. f_equal. apply (IH _ false Hr). rewrite Nat.even_succ_succ. exact He.
+      - destruct Hwf as [-> Hr]. cbn [negb] in He.
+        rewrite repl_aux_zero, (prefix_after_lone ts Hr).
+        change (is_dollar cDollar) with true. cbv iota.
+        cbn [flatten map concat tok_text app]. f_equal.
+        apply (IH _ true Hr). rewrite Nat.even_succ, <- Nat.negb_even, He. reflexivity.
+      - destruct Hwf as [-> [[Hm _] Hr]]. cbn [negb] in He.
+        destruct (str_eqb name n) eqn:E.
+        + apply str_eqb_eq in E. subst name. fold uri.
+          rewrite uri_eq at 2. cbn [app]. rewrite repl_aux_zero.
+          assert (Hp : prefix uri (cDollar :: w ++ flatten ts) = true).
+          { rewrite uri_eq. apply (prefix_app_self (cDollar :: w)). }
+          rewrite Hp, <- Nat.negb_even, He. cbn [negb]. rewrite len_uri, repl_skip_all, run_w.
+          rewrite flatten_lit. f_equal. now apply (IH 0 false).
+        + assert (Hp : prefix uri (ref_text name ++ flatten ts) = false).
+          { rewrite (prefix_other_ref name _ Hm). destruct (str_eqb n name) eqn:E2; [|reflexivity].
+            apply str_eqb_eq in E2. subst. rewrite str_eqb_refl in E. discriminate. }
+          assert (Hw' : has_char cDollar (cOpen :: name ++ [cClose]) = false).
+          { unfold name_ok in Hm. apply andb_true_iff in Hm as [H1 _]. apply negb_true_iff in H1.
+            change (cOpen :: name ++ [cClose]) with ([cOpen] ++ name ++ [cClose]).
+            rewrite !has_char_app, H1. reflexivity. }
+          unfold ref_text in *. cbn [app] in *. rewrite repl_aux_zero, Hp.
+          change (is_dollar cDollar) with true. cbv iota.
+          cbn [flatten map concat tok_text app]. unfold ref_text. cbn [app]. f_equal.
+          change (cOpen :: (name ++ [cClose]) ++ flatten ts) with ((cOpen :: name ++ [cClose]) ++ flatten ts).
+          rewrite uri_eq. rewrite (repl_copy w (val n) _ _ _ Hw'). rewrite <- uri_eq.
+          assert (Hrun : run (S nd) (cOpen :: name ++ [cClose]) = 0).
+          { change (cOpen :: name ++ [cClose]) with ((cOpen :: name) ++ [cClose]). rewrite run_snoc. reflexivity. }
+          rewrite Hrun, app_nil_r. rewrite (IH 0 false Hr eq_refl). reflexivity.
+    Qed.
+  End Repl.
+
+  (* ---- one round, all rounds ---------------------------------------------------------------------------------- *)
+  Lemma first_ref_split ts n : first_ref ts = Some n -> exists ps rest, ts = ps ++ TRef n :: rest.
+  Proof.
+    induction ts as [|t ts IH]; [discriminate|]. intros H.
+    destruct t; cbn [first_ref] in H;
+      try (destruct (IH H) as [ps [rest ->]]; eexists (_ :: ps), rest; reflexivity).
+    inversion H; subst. exists [], ts. reflexivity.
+  Qed.
+
+  Lemma first_ref_good ts : forall pd n, wf_from pd ts -> first_ref ts = Some n -> ref_good n.
+  Proof.
+    induction ts as [|t ts IH]; intros pd n Hwf H; [discriminate|].
+    destruct t; cbn [first_ref wf_from] in *.
+    - destruct Hwf as [_ [_ Hr]]. eauto.
+    - eauto.
+    - destruct Hwf as [_ Hr]. eauto.
+    - destruct Hwf as [_ Hr]. eauto.
+    - destruct Hwf as [_ [Hg _]]. inversion H; subst. exact Hg.
+  Qed.
+
+  Lemma guard_tokens ts n :
+    first_ref ts = Some n ->
+    negb (contains [cDollar; cOpen] (flatten ts)) || negb (has_char cClose (flatten ts)) = false.
+  Proof.
+    intros H. rewrite (first_ref_has_close ts n H).
+    destruct (first_ref_split ts n H) as [ps [rest ->]].
+    rewrite flatten_app, flatten_cons. cbn [tok_text].
+    rewrite (contains_app_r _ (flatten ps) _ (ref_text_contains_open n (flatten rest))). reflexivity.
+  Qed.
+
+  Lemma tok_text_len t : 1 <= length (tok_text t).
+  Proof. destruct t; cbn; try lia; unfold ref_text; cbn; lia. Qed.
+
+  Lemma flatten_len ts : length ts <= length (flatten ts).
+  Proof.
+    induction ts as [|t ts IH]; [apply le_n|]. rewrite flatten_cons, app_length. cbn [length].
+    pose proof (tok_text_len t). lia.
+  Qed.
+
+  Definition ntext (ts : list tok) : nat := length (filter (fun t => negb (is_ref t)) ts).
+
+  Lemma filter_len_le {A} (f : A -> bool) l : length (filter f l) <= length l.
+  Proof. induction l as [|a l IH]; [apply le_n|]. cbn [filter]. destruct (f a); cbn [length]; lia. Qed.
+
+  Lemma ntext_le ts : ntext ts <= length (flatten ts).
+  Proof.
+    unfold ntext. pose proof (filter_len_le (fun t => negb (is_ref t)) ts). pose proof (flatten_len ts). lia.
+  Qed.
+
+  Lemma flatten_len_ref ts n :
+    first_ref ts = Some n -> length (ref_text n) + ntext ts <= length (flatten ts).
+  Proof.
+    induction ts as [|t ts IH]; [discriminate|]. intros H. rewrite flatten_cons, app_length.
+    destruct t; cbn [first_ref] in H; unfold ntext in *; cbn [filter is_ref negb length tok_text];
+      try (specialize (IH H); lia).
+    inversion H; subst. pose proof (ntext_le ts). unfold ntext in *. lia.
+  Qed.
+
+  Lemma has_text_ntext ts : has_text ts = true -> 1 <= ntext ts.
+  Proof.
+    unfold has_text, ntext. induction ts as [|t ts IH]; [discriminate|].
+    cbn [existsb filter]. destruct (negb (is_ref t)); cbn [length orb]; [lia|auto].
+  Qed.
+
+  Lemma not_single ts n : has_text ts = true -> first_ref ts = Some n -> ref_text n <> flatten ts.
+  Proof.
+    intros Ht Hf E. pose proof (flatten_len_ref ts n Hf). pose proof (has_text_ntext ts Ht).
+    rewrite <- E in H. lia.
+  Qed.
+
+
+  (* a token string that can never shrink to one bare reference: it has a non-reference token, or at
+     least two tokens whose final text is not empty *)
+  Definition heavy (t : tok) : bool :=
+    match t with TRef m => negb (str_empty (val m)) | _ => true end.
+  Definition weight (ts : list tok) : nat := length (filter heavy ts).
+  Definition anchored (ts : list tok) : Prop := has_text ts = true \/ 2 <= weight ts.
+
+  Lemma weight_app a b : weight (a ++ b) = weight a + weight b.
+  Proof. unfold weight. now rewrite filter_app, app_length. Qed.
+
+  Lemma weight_lit s : weight (lit_tokens s) = length s.
+  Proof.
+    unfold weight. induction s as [|c s IH]; [reflexivity|].
+    unfold lit_tokens in *. cbn [map]. unfold lit_tok at 1.
+    destruct (Ascii.eqb c cClose); cbn [filter heavy length]; now rewrite IH.
+  Qed.
+
+  Lemma weight_subst n ts : weight ts <= weight (subst n ts).
+  Proof.
+    induction ts as [|t ts IH]; [apply le_n|].
+    unfold subst in *. cbn [flat_map]. rewrite weight_app.
+    change (t :: ts) with ([t] ++ ts). rewrite (weight_app [t] ts).
+    apply Nat.add_le_mono; [|exact IH].
+    destruct t; try apply le_n. cbn [subst1]. destruct (str_eqb name n) eqn:E; [|apply le_n].
+    apply str_eqb_eq in E. subst. rewrite weight_lit. unfold weight. cbn [filter heavy].
+    destruct (val n); cbn; lia.
+  Qed.
+
+  Lemma weight_le_len ts : weight ts <= length ts.
+  Proof. unfold weight. apply filter_len_le. Qed.
+
+  Lemma anchored_subst n ts : anchored ts -> anchored (subst n ts).
+  Proof.
+    intros [H|H]; [left; now apply has_text_subst|right].
+    pose proof (weight_subst n ts). lia.
+  Qed.
+
+  Lemma flatten_len_ref2 ts n :
+    first_ref ts = Some n -> length (ref_text n) + (length ts - 1) <= length (flatten ts).
+  Proof.
+    induction ts as [|t ts IH]; [discriminate|]. intros H. rewrite flatten_cons, app_length.
+    destruct t; cbn [first_ref] in H; cbn [length tok_text];
+      try (specialize (IH H); destruct ts; [discriminate|cbn [length] in *; lia]).
+    inversion H; subst. pose proof (flatten_len ts). lia.
+  Qed.
+
+  Lemma not_single' ts n : anchored ts -> first_ref ts = Some n -> ref_text n <> flatten ts.
+  Proof.
+    intros [Ht|Hw] Hf; [now apply not_single|].
+    intros E. pose proof (flatten_len_ref2 ts n Hf). pose proof (weight_le_len ts).
+    rewrite <- E in H. lia.
+  Qed.
+
+  Lemma one_round ts n :
+    wf ts -> anchored ts -> first_ref ts = Some n ->
+    expand_string def retrieve (flatten ts) = Ok (CStr (flatten (subst n ts)), true).
+  Proof.
+    intros Hwf Ht Hf. unfold expand_string. rewrite (guard_tokens ts n Hf).
+    destruct (first_ref_good ts false n Hwf Hf) as [Hn [Hok [Hv [ret [He Hs]]]]].
+    rewrite (find_and_expand_embedded def retrieve _ (ref_text n) ret (val n)); auto.
+    - unfold replace_unescaped. now rewrite (repl_tokens n Hn ts 0 false Hwf eq_refl).
+    - rewrite (find_uri_wf ts Hwf), Hf. reflexivity.
+    - now apply not_single'.
+  Qed.
+
+  Lemma last_round ts :
+    wf ts -> first_ref ts = None ->
+    expand_string def retrieve (flatten ts) = Ok (CStr (flatten ts), false).
+  Proof.
+    intros Hwf Hf. unfold expand_string.
+    destruct (negb (contains [cDollar; cOpen] (flatten ts)) || negb (has_char cClose (flatten ts))); [reflexivity|].
+    unfold find_and_expand. rewrite (find_uri_wf ts Hwf), Hf. reflexivity.
+  Qed.
+
+  Lemma rounds k : forall ts,
+    nrefs ts <= k -> wf ts -> anchored ts ->
+    expand_rec def retrieve (S k) (CStr (flatten ts)) = Ok (CStr (flatten (subst_all ts))).
+  Proof.
+    induction k as [|k IH]; intros ts Hk Hwf Ht; destruct (first_ref ts) as [n|] eqn:Hf.
+    - pose proof (nrefs_subst_lt n ts Hf). lia.
+    - rewrite (expand_rec_unchanged def retrieve _ _ (CStr (flatten ts))).
+      + now rewrite subst_all_no_ref.
+      + rewrite expand_value_str. now apply last_round.
+    - rewrite (expand_rec_changed def retrieve _ _ (CStr (flatten (subst n ts)))).
+      + rewrite IH.
+        * now rewrite subst_all_subst.
+        * pose proof (nrefs_subst_lt n ts Hf). lia.
+        * now apply wf_subst.
+        * now apply anchored_subst.
+      + rewrite expand_value_str. now apply one_round.
+    - rewrite (expand_rec_unchanged def retrieve _ _ (CStr (flatten ts))).
+      + now rewrite subst_all_no_ref.
+      + rewrite expand_value_str. now apply last_round.
+  Qed.
+
+  Lemma first_ref_lit_app s r : first_ref (lit_tokens s ++ r) = first_ref r.
+  Proof.
+    induction s as [|c s IH]; [reflexivity|]. unfold lit_tokens in *. cbn [map app].
+    unfold lit_tok at 1. destruct (Ascii.eqb c cClose); exact IH.
+  Qed.
+
+  Lemma first_ref_subst_all ts : first_ref (subst_all ts) = None.
+  Proof.
+    induction ts as [|t ts IH]; [reflexivity|]. unfold subst_all in *. cbn [flat_map].
+    destruct t; cbn [subst_all1 app first_ref]; auto. now rewrite first_ref_lit_app.
+  Qed.
+
+  Lemma wf_subst_all ts : forall pd, wf_from pd ts -> wf_from pd (subst_all ts).
+  Proof.
+    induction ts as [|t ts IH]; intros pd H; [exact H|].
+    unfold subst_all in *. cbn [flat_map].
+    destruct t; cbn [subst_all1 app wf_from] in *.
+    - destruct H as [H1 [H2 H3]]. auto.
+    - auto.
+    - destruct H as [H1 H2]. auto.
+    - destruct H as [H1 H2]. auto.
+    - destruct H as [H1 [H2 H3]]. subst pd.
+      apply wf_lit_app; [|auto]. destruct H2 as [_ [_ [Hv _]]]. exact Hv.
+  Qed.
+
+  Lemma tokens_main ts :
+    wf ts -> anchored ts -> nrefs ts < 1000 ->
+    resolve_string def retrieve (flatten ts) = Ok (CStr (sem ts)).
+  Proof.
+    intros Hwf Ht Hk. unfold resolve_string, resolve_leaf. rewrite max_rounds_S.
+    rewrite (rounds 999 ts) by (auto; lia). cbn [escape_dollars].
+    rewrite (unescape_tokens (subst_all ts) false (wf_subst_all ts false Hwf) (first_ref_subst_all ts)).
+    now rewrite sem_subst_all.
+  Qed.
+
+  (* an escaped reference is kept as text, whatever surrounds it *)
+  Definition esc_ref (n : str) : list tok := TEsc :: lit_tokens (cOpen :: n ++ [cClose]).
+
+  Lemma sem_esc_ref n : sem (esc_ref n) = ref_text n.
+  Proof. unfold esc_ref. change (TEsc :: ?l) with ([TEsc] ++ l). now rewrite sem_app, sem_lit. Qed.
+
+  Lemma flatten_esc_ref n : flatten (esc_ref n) = cDollar :: ref_text n.
+  Proof. unfold esc_ref. rewrite flatten_cons, flatten_lit. reflexivity. Qed.
 End Tokens.
